@@ -25,7 +25,7 @@ META = {
         "result, or a non-success outcome; distinct = (program shape, external plan, outcomes)."
         " Plus LinePreempt sweeps over state.py for four fixed programs (paged and unpaged responses)."
     ),
-    "assumptions": ["the external party answers each operation at most once; invoke results are JSON texts as the service returns them"],
+    "assumptions": ["the external party answers each operation at most once; invoke results are JSON texts as the service returns them, or arbitrary text (including the empty string) where the call configures a plain-text result serializer"],
     "budget": {
         "quick": {"shards": 4, "random_cases": 150, "min_nontrivial": 40},
         "thorough": {"shards": 16, "random_cases": 4000, "min_nontrivial": 1200},
@@ -71,7 +71,12 @@ def cases(draw):
             return {"op": "wfcb"}
         if k == "invoke":
             ext_for(p, "invoke")
-            return {"op": "invoke", "fn": draw(st.sampled_from(["fn-a", "arn:aws:lambda:x:fn-b"])), "payload": draw(G.json_values),
+            text = draw(st.integers(0, 3)) == 0
+            if text:
+                # the caller configured a plain-text result serializer: the recorded result is handed to it verbatim
+                ext[-1]["raw"] = True
+                ext[-1]["payload"] = draw(st.sampled_from(["", "", "a,b", " ", "0", "null"]))
+            return {"op": "invoke", "fn": draw(st.sampled_from(["fn-a", "arn:aws:lambda:x:fn-b"])), "payload": draw(G.json_values), **({"serdes": "text"} if text else {}),
                     "tenant": draw(st.sampled_from([None, None, "tenant-1"])), **({"timeout": draw(st.integers(1, 20))} if draw(st.integers(0, 4)) == 0 else {})}
         return draw(G.steps(allow_fail=False))
 
